@@ -5,14 +5,13 @@
   host list  = comma list of hex strings
   bit string = one `0`/`1` per host, `_` when there is no host
 
-    compile <src>                      → ok <neutral> | err | unsupported
+    compile <src>                      → ok | err | unsupported
     item <val>                         → ok <exclude> <src> <printed> | err | unsupported       (ParseRegexpListItem / String)
     match <rules> <hosts>              → ok <bits Match> <bits Inverse().Match> | no-include | panic | unsupported
-    matchwrapped <rules> <hosts>       → same, every source wrapped in (?:…) before joining (candidate repair of F10)
     rules <rules> <hosts>              → ok <bits of rule 1>,<bits of rule 2>,… (each rule on its own) | unsupported
-    neutral <rules>                    → ok <bits>  (flag-neutral at top level, per rule)
     holds <rules> <hosts> <observed>   → true | false <index of first host where observed ≠ union-minus-excludes> | unsupported
-    risk <rules>                       → <bits per rule> <0/1 joined>   (inside the class of Go's alternation-factoring defect, see Model)
+    risk <rules>                       → <bits per rule>   (the rule, as ONE expression, is inside the class where Go's own
+                                         alternation factoring deviates from the modelled semantics, see Model)
     eval <rules> <hosts> <observed>    → <match answer> | <rules answer> | <holds answer> | <risk answer>   (one round trip)
 -/
 import FwdVerif.Model.C17
@@ -93,7 +92,7 @@ def handle1 : List String → String
     | none => "bad-op"
     | some s =>
       match compile s with
-      | .ok _ => s!"ok {ofBool (neutralSrc s)}"
+      | .ok _ => "ok"
       | .error .syntax => "err"
       | .error .unsupported => "unsupported"
   | ["item", val] =>
@@ -110,22 +109,12 @@ def handle1 : List String → String
       if !hs.all isAscii || someUnsupported l then "unsupported"
       else answerMatch (fromList l) hs
     | _, _ => "bad-op"
-  | ["matchwrapped", rules, hosts] =>
-    match decodeRules rules, bytesList hosts with
-    | some l, some hs =>
-      if !hs.all isAscii || someUnsupported l then "unsupported"
-      else answerMatch (fromList (l.map fun r => { r with src := wrapSrc r.src })) hs
-    | _, _ => "bad-op"
   | ["rules", rules, hosts] =>
     match decodeRules rules, bytesList hosts with
     | some l, some hs =>
       if !hs.all isAscii || !supported l then "unsupported"
       else s!"ok {joinList (l.map fun r => bits (searchHosts r hs))}"
     | _, _ => "bad-op"
-  | ["neutral", rules] =>
-    match decodeRules rules with
-    | some l => s!"ok {bits (l.map fun r => neutralSrc r.src)}"
-    | none => "bad-op"
   | ["holds", rules, hosts, observed] =>
     match decodeRules rules, bytesList hosts, unbits observed with
     | some l, some hs, some obs =>
@@ -136,18 +125,11 @@ def handle1 : List String → String
     | _, _, _ => "bad-op"
   | _ => "bad-op"
 
-def optRisk : Option Rx → Bool
-  | some r => r.foldRisk
-  | none => false
-
-/-- `risk <rules>` → `<per-rule bits> <joined>`: is a rule, resp. the joined include or exclude
-    expression, inside the class where Go's alternation factoring is known to drop a fold-case flag -/
+/-- `risk <rules>` → `<per-rule bits>`: is the rule, taken as one expression, inside the class where
+    Go's alternation factoring is known to drop a fold-case flag (nothing is joined any more, so
+    there is no list-level bit) -/
 def riskAnswer (l : List Rule) : String :=
-  let per := l.map fun r => match compile r.src with | .ok x => x.foldRisk | .error _ => false
-  let joined := match fromList l with
-    | .ok m => optRisk m.incl || optRisk m.excl
-    | _ => false
-  s!"{bits per} {ofBool joined}"
+  bits (l.map fun r => match compile r.src with | .ok x => x.foldRisk | .error _ => false)
 
 /-- `eval <rules> <hosts> <observed>` = the answers of `match`, `rules`, `holds` and `risk` in one
     round trip, separated by ` | ` -/
